@@ -247,6 +247,17 @@ def structural_facts():
         facts["handler_%s_fast_error_first" % name] = bool(re.search(r"std::string\s+response\s*=\s*getFastErrorResponse\(dataStatus\);\s*if\s*\(!response\.empty\(\)\)", b))
     norm = lambda b: re.sub(r"\s+", " ", re.sub(r"ResultToV2SummaryResponse|ResultToV2Response", "R", re.sub(r"summary|route", "X", b)))
     facts["summary_mirrors_route"] = norm(handlers["route"]) == norm(handlers["summary"])
+    # --- where the scans start (C07, C12, C03/C04/C08/C09 index transparency): the hour handed to the index look-ups
+    fc = strip_comments(src("connection_scan_algorithm/src/forward_calculation.cpp"))
+    rc = strip_comments(src("connection_scan_algorithm/src/reverse_calculation.cpp"))
+    fdefs = re.findall(r"int\s+departureTimeHour\s*=\s*([^;]+);", fc)
+    fcalls = re.findall(r"getForwardConnectionsBeginAtDepartureHour\(([^)]*)\)", fc)
+    facts["forward_scans_start_at_hour_of_departure_time"] = (len(fdefs) == 2 and all(re.sub(r"\s+", "", x) == "departureTimeSeconds/3600" for x in fdefs)
+                                                              and len(fcalls) == 2 and all(x.strip() == "departureTimeHour" for x in fcalls))
+    rdefs = re.findall(r"int\s+arrivalTimeHour\s*=\s*([^;]+);", rc)
+    rcalls = re.findall(r"getReverseConnectionsBeginAtArrivalHour\(([^)]*)\)", rc)
+    facts["reverse_scans_start_at_hour_after_arrival_time"] = (len(rdefs) == 2 and all(re.sub(r"\s+", "", x) == "arrivalTimeSeconds/3600" for x in rdefs)
+                                                               and len(rcalls) == 2 and all(re.sub(r"\s+", "", x) == "arrivalTimeHour+1" for x in rcalls))
     # --- refresh (/updateCache) and data status (C15, C17)
     for fn, getter in (("updateSchedules", "getSchedules"), ("updateScenarios", "getScenarios")):
         b = function_body(td, r"TransitData::%s\s*\(" % fn)
